@@ -285,8 +285,8 @@ func (r *readableSet[T]) ToSlice() (slice []T) {
 
 // String returns a string representation of the set.
 func (r *readableSet[T]) String() (humanReadable string) {
-	var elementType T
-	elementTypeName := reflect.TypeOf(elementType).Name()
+	// (reflect.TypeOf of the zero value is nil for an interface type)
+	elementTypeName := reflect.TypeOf((*T)(nil)).Elem().Name()
 
 	elementStrings := make([]string, 0)
 	_ = r.ForEach(func(element T) (err error) {
